@@ -17,8 +17,6 @@ theorem wfNode_congr (facs facs' : Array Dict) (n : Node)
   split
   · rename_i a b
     rw [h a (by simp), h b (by simp)]
-  · rename_i a b
-    rw [h a (by simp), h b (by simp)]
   · rfl
 
 /-- one node appends one entry to `facs` -/
@@ -39,9 +37,7 @@ theorem stepNode_facs (avIndex : Nat → Nat) (st : FState) (si : Nat) (n : Node
   · obtain ⟨r, _, rfl⟩ := except_map_ok _ _ _ h; exact ⟨_, rfl⟩
   · obtain ⟨r, _, rfl⟩ := except_map_ok _ _ _ h; exact ⟨_, rfl⟩
   · obtain ⟨r, _, rfl⟩ := except_map_ok _ _ _ h; exact ⟨_, rfl⟩
-  · split at h
-    · cases h
-    · cases h; exact ⟨_, rfl⟩
+  · obtain ⟨r, _, rfl⟩ := except_map_ok _ _ _ h; exact ⟨_, rfl⟩
   · cases h
 
 theorem runNodes_facs_stable (avIndex : Nat → Nat) (fin : FState) :
@@ -120,7 +116,7 @@ theorem runNodes_inv (hρ : LawfulEnv ρ) (hreal : RealArgs ρ) (S : Array Node)
     refine ⟨by simpa [Nat.add_assoc, Nat.add_comm 1] using hfin, hx1.trans hx2, ?_, ?_⟩
     · intro j hj
       rw [hst2 j (by omega), hst1 j hj]
-    · obtain ⟨_, _, _, _, rfl, _⟩ := hpost
+    · obtain ⟨_, _, _, rfl, _⟩ := hpost
       rw [hone]; rfl
 
 end
